@@ -91,6 +91,31 @@ theorem assemble_ordered_eq_fixed {it₁ it₂ : List Nat → List Nat}
     assemble it₁ it₂ rings par = assembleFixed rings par :=
   assemble_ordered_iteration_unique h₁ h₂ sortKeys_ordered sortKeys_ordered rings par
 
+/-- sorting removes every trace of the order the keys were in -/
+theorem sortKeys_perm_invariant {l l' : List Nat} (h : l.Perm l') : sortKeys l = sortKeys l' :=
+  List.Perm.eq_of_pairwise (le := (· ≤ ·)) (fun _ _ _ _ hab hba => Nat.le_antisymm hab hba)
+    (Lemmas.C20.sortKeys_pairwise l) (Lemmas.C20.sortKeys_pairwise l')
+    (((Lemmas.C20.sortKeys_perm l).trans h).trans (Lemmas.C20.sortKeys_perm l').symm)
+
+/-- DESIGN §7 C20 T1 in its literal form: put *any* permutations `π`, `π'` (hash orders, insertion
+histories) in front of the ordered iteration — the result is the same. -/
+theorem assemble_sorted_perm {π₁ π₂ π₁' π₂' : List Nat → List Nat}
+    (h₁ : ∀ ks, (π₁ ks).Perm ks) (h₂ : ∀ ks, (π₂ ks).Perm ks)
+    (h₁' : ∀ ks, (π₁' ks).Perm ks) (h₂' : ∀ ks, (π₂' ks).Perm ks)
+    (rings : List Ring) (par : Nat → List Nat) :
+    assemble (fun ks => sortKeys (π₁ ks)) (fun ks => sortKeys (π₂ ks)) rings par =
+      assemble (fun ks => sortKeys (π₁' ks)) (fun ks => sortKeys (π₂' ks)) rings par := by
+  have e₁ : (fun ks => sortKeys (π₁ ks)) = (fun ks => sortKeys (π₁' ks)) :=
+    funext fun ks => sortKeys_perm_invariant ((h₁ ks).trans (h₁' ks).symm)
+  have e₂ : (fun ks => sortKeys (π₂ ks)) = (fun ks => sortKeys (π₂' ks)) :=
+    funext fun ks => sortKeys_perm_invariant ((h₂ ks).trans (h₂' ks).symm)
+  rw [e₁, e₂]
+
+example : assemble (fun ks => sortKeys ks.reverse) (fun ks => sortKeys ks) twelve (fun _ => []) =
+    assemble (fun ks => sortKeys ks) (fun ks => sortKeys ks.reverse) twelve (fun _ => []) :=
+  assemble_sorted_perm (fun ks => List.reverse_perm ks) (fun _ => List.Perm.refl _)
+    (fun _ => List.Perm.refl _) (fun ks => List.reverse_perm ks) _ _
+
 example : assemble sortKeys sortKeys twelve (fun _ => []) = assembleFixed twelve (fun _ => []) :=
   assemble_ordered_eq_fixed sortKeys_ordered sortKeys_ordered _ _
 
@@ -191,6 +216,20 @@ theorem stitchTrianglesHash_perm {it₁ it₂ : List Nat → List Nat} (h₁ : P
     exact Lemmas.C20.rel2_map (findAndFixHoles C) (findAndFixHoles C)
       (fun _ _ => findAndFixHoles_equiv C) hr
 
+/-- non-vacuity: two unit squares as four triangles, hash maps iterated in reverse; containment
+is never true for separate squares -/
+example :
+    let C : Cont := ⟨fun _ _ => false, fun _ _ => false⟩
+    let tris : List Tri := [⟨⟨0, 0⟩, ⟨1, 0⟩, ⟨1, 1⟩⟩, ⟨⟨0, 0⟩, ⟨1, 1⟩, ⟨0, 1⟩⟩,
+                            ⟨⟨2, 0⟩, ⟨3, 0⟩, ⟨3, 1⟩⟩, ⟨⟨2, 0⟩, ⟨3, 1⟩, ⟨2, 1⟩⟩]
+    (stitchTrianglesHash List.reverse List.reverse C tris).map List.length = some 2 ∧
+    stitchTrianglesHash id List.reverse C tris ≠ stitchTriangles C tris := by
+  decide +kernel
+
+example : PolyEquiv (findAndFixHoles ⟨fun _ _ => false, fun _ _ => false⟩ ⟨sq 0 0, [sq 2 2, sq 4 4]⟩)
+    (findAndFixHoles ⟨fun _ _ => false, fun _ _ => false⟩ ⟨sq 0 0, [sq 4 4, sq 2 2]⟩) :=
+  findAndFixHoles_equiv _ ⟨rfl, List.Perm.swap _ _ _⟩
+
 /-- the whole of `stitch_triangles` after the fix is the pinned code run with key-ordered maps -/
 theorem stitchTriangles_eq_hash_ordered {it₁ it₂ : List Nat → List Nat}
     (h₁ : OrderedIter it₁) (h₂ : OrderedIter it₂) (C : Cont) (tris : List Tri) :
@@ -278,6 +317,15 @@ theorem trianglesOfFaces_getElem? (faces : List Tri3) (i : Nat) :
 returns exactly one polygon -/
 example : ∃ o, BoolOp (fun s _ _ _ o => o = [s]) id [⟨sq 0 0, []⟩] [] .union o ∧ o.length = 1 :=
   ⟨_, ⟨_, rfl, rfl⟩, rfl⟩
+
+example (a b : List Poly) (o o' : List Poly)
+    (h : BoolOp (fun s _ _ _ o => o = [s]) id a b .union o)
+    (h' : BoolOp (fun s _ _ _ o => o = [s]) id a b .union o') : o = o' :=
+  boolOp_functional (fun _ _ _ _ _ _ h h' => h.trans h'.symm) id a b .union o o' h h'
+
+example : ∃ o, EarcutTriangles (fun _ _ idx => idx = [0, 1, 2]) ⟨[⟨0, 0⟩, ⟨4, 0⟩, ⟨0, 4⟩, ⟨0, 0⟩], []⟩ o ∧
+    o.length = 1 :=
+  ⟨_, ⟨_, rfl, rfl⟩, by simp [trianglesOfIndices_length]⟩
 
 /-- Conversely the glue hides nothing: if (under two schedules) the engine answered with the same
 shapes in a different order, the results differ in exactly that order. -/
